@@ -40,8 +40,9 @@ Lemma mutate_gen_sub defer w t e r w' e' dl : mutate_gen defer w t e = (r, w', e
   (dk_meta (e_disk e') = dk_meta (e_disk e) \/ dk_meta (e_disk e') = Some (tx_ps t)).
 Proof.
   unfold mutate_gen. fold (tx_ps t).
-  destruct (io_cases (ACommit (tx_ps t)) e eq_refl) as [(e1 & E1 & D & _)|(e1 & E1 & D & _)]; rewrite E1; cbn [negb].
-  2:{ intros E; inversion E; subst. rewrite D. auto. }
+  destruct (io_cases3 (ACommit (tx_ps t)) e eq_refl) as [(e1 & E1 & D & _)|[(e1 & E1 & D & _)|(e1 & E1 & _ & D & _)]]; rewrite E1; cbn [negb].
+  2:{ intros E; inversion E; subst. cbn [st_segs]. rewrite D. auto. }
+  2:{ intros E; inversion E; subst. cbn [st_segs]. rewrite D. split; [left; reflexivity|right; reflexivity]. }
   assert (Hm1 : dk_meta (e_disk e1) = Some (tx_ps t)) by (rewrite D; reflexivity).
   assert (Hdel : forall ns e0, dk_meta (e_disk (delete_files ns e0)) = dk_meta (e_disk e0)).
   { intros ns e0. destruct (delete_files_real ns e0) as (_ & _ & K). rewrite K. destruct (del_fails e0); [reflexivity|].
@@ -51,9 +52,9 @@ Proof.
     assert (Hm2 : dk_meta (e_disk e2) = Some (tx_ps t)).
     { revert Es. unfold seg_create. destruct (si_base si =? 0); [intros E; inversion E; subst; exact Hm1|].
       destruct (lookup _ _).
-      - destruct (io_cases (AFail (ACreate (name_of si) (si_size_limit si))) e1 eq_refl) as [(x & Ex & Dx & _)|(x & Ex & Dx & _)]; rewrite Ex;
+      - destruct (io_cases (AFail (ACreate (name_of si) (si_size_limit si))) e1 eq_refl eq_refl) as [(x & Ex & Dx & _)|(x & Ex & Dx & _)]; rewrite Ex;
           intros E; inversion E; subst; rewrite Dx; exact Hm1.
-      - destruct (io_cases (ACreate (name_of si) (si_size_limit si)) e1 eq_refl) as [(x & Ex & Dx & _)|(x & Ex & Dx & _)]; rewrite Ex;
+      - destruct (io_cases (ACreate (name_of si) (si_size_limit si)) e1 eq_refl eq_refl) as [(x & Ex & Dx & _)|(x & Ex & Dx & _)]; rewrite Ex;
           intros E; inversion E; subst.
         + rewrite Dx. exact Hm1.
         + destruct (fx_leave (e_fx e1)); [unfold leave_entry; cbn [e_disk]; rewrite Dx; exact Hm1|rewrite Dx; exact Hm1]. }
@@ -102,7 +103,8 @@ Lemma io_meta a e : (forall ps, a <> ACommit ps) -> dk_meta (e_disk (snd (io a e
 Proof.
   intros H. unfold io. destruct (is_delete a).
   - destruct (armed e && fx_del (e_fx e)); cbn [snd e_disk]; [reflexivity|apply apply_act_meta; exact H].
-  - destruct (e_fault e) as [[|k]|]; cbn [snd e_disk]; [reflexivity|apply apply_act_meta; exact H|apply apply_act_meta; exact H].
+  - destruct (e_fault e) as [[|k]|]; [destruct (is_txn a && fx_land (e_fx e))|..]; cbn [snd e_disk];
+      [apply apply_act_meta; exact H|reflexivity|apply apply_act_meta; exact H|apply apply_act_meta; exact H].
 Qed.
 Lemma delete_files_meta ns e : dk_meta (e_disk (delete_files ns e)) = dk_meta (e_disk e).
 Proof.
